@@ -511,6 +511,72 @@ def node(w, hist, cfg, res):
     return n, len(tids) >= 3, viol
 
 
+def dbpack_task():
+    """DB.pack(t, days): the time handed to the storage is t (default: now)
+    minus days - for every combination of the two arguments, on both
+    packable storages; and the pack the storage then does is the one a
+    direct storage.pack(that time) does (same file)."""
+    import transaction
+    from mc import schedx
+    env.install()
+    res = schedx._new_res()
+    seen = set()
+    for kind in ('F', 'M'):
+        for t_given in (None, 'T'):
+            for days in (0, 1, 0.5, 3):
+                env.reset_globals()
+                d = env.new_dir('dp')
+                FS = env.mod('ZODB.FileStorage.FileStorage').FileStorage
+                MS = env.mod('ZODB.MappingStorage').MappingStorage
+                st = FS(os.path.join(d, 'Data.fs')) if kind == 'F' else MS()
+                db = env.mod('ZODB.DB').DB(st)
+                try:
+                    tm = transaction.TransactionManager()
+                    c = db.open(tm)
+                    for i in range(3):
+                        env.CLOCK.now += 86400
+                        c.root()['k'] = i
+                        tm.commit()
+                    c.close()
+                    env.CLOCK.now += 86400
+                    T = env.CLOCK.now - 3600.0
+                    seen_t = []
+                    orig = st.pack
+
+                    def spy(t, referencesf, *a, **k):
+                        seen_t.append(t)
+                        return orig(t, referencesf, *a, **k)
+                    st.pack = spy
+                    kw = dict(days=days)
+                    if t_given:
+                        kw['t'] = T
+                    r = call(db.pack, **kw)
+                    want = (T if t_given else env.CLOCK.now) - days * 86400
+                    res['cov']['evaluations'] += 1
+                    res['cov']['states'] += 1
+                    res['cov']['traces_validated_against_impl'] += 1
+                    res['cov']['distinct_nontrivial'] += 1
+                    res['outcomes']['db-pack'] = 1
+                    if isinstance(r, Exc) or seen_t != [want]:
+                        fs = 'C07.dbpack:%s:%s' % (
+                            kind, 'error' if isinstance(r, Exc)
+                            else 'pack-time')
+                        if fs not in seen:
+                            seen.add(fs)
+                            res['violations'].append((
+                                'C07.dbpack', fs, dict(dbpack=dict(
+                                    kind=kind, t=bool(t_given), days=days)),
+                                dict(expected=want, got=repr(seen_t),
+                                     result=repr(r)[:100]), 1))
+                finally:
+                    try:
+                        db.close()
+                    except Exception:
+                        pass
+                    env.rm_dir(d)
+    return res
+
+
 def run(rep, tier, seed, workers):
     if tier == 'quick':
         plan = [dict(prop='C07', kind='F', nobj=2, depth=3,
@@ -542,7 +608,9 @@ def run(rep, tier, seed, workers):
         'state from T on, transactions after T, undo log; removed revisions '
         'must be superseded at T or garbage at T; reopen; second pack same / '
         'earlier; undo of every later transaction on packed vs unpacked '
-        'copy; evaluations = packs + undo pairs; non-trivial = history with '
+        'copy; DB.pack(t, days) for every combination of its arguments hands '
+        't - days to the storage; evaluations = packs + undo pairs; '
+        'non-trivial = history with '
         'at least three transactions')
     states = 0
     for cfg in plan:
@@ -556,7 +624,10 @@ def run(rep, tier, seed, workers):
             'pack of the empty storage + root creation'
             if cfg.get('pack_empty_first') else 'root creation')] = depth
         rep.bounds['%s objects' % cfg['kind']] = cfg['nobj'] + 1
-    rep.cov['states'] = states
+    from mc import par
+    before = rep.cov.get('states', 0)
+    par.run_tasks([(MOD, 'dbpack_task', ())], workers, rep, seed)
+    rep.cov['states'] = states + rep.cov.get('states', 0) - before
     rep.assumptions = [
         'pack times between two tids behave like the earlier tid (the '
         'packer compares tid > packtime), so only tid-valued times are used',
@@ -564,7 +635,14 @@ def run(rep, tier, seed, workers):
         'its effects are then checked like any other outcome']
 
 
+def replay_dbpack(w):
+    r = dbpack_task()
+    return w['signature'] not in {v[1] for v in r['violations']}
+
+
 def replay(w):
+    if 'dbpack' in w['witness']:
+        return replay_dbpack(w)
     viol = seqx.replay_history(MOD, w['witness'])
     for v in viol:
         print(v)
